@@ -8,6 +8,7 @@ from __future__ import annotations
 
 import ast
 import hashlib
+import json
 import importlib.util
 import os
 import sys
@@ -1100,10 +1101,67 @@ class Engine:
 
     # =============================================================================================
     # driver
+    # ---- cache of loop havoc sets ------------------------------------------------------------------------------
+    # Which heap locations a loop writes is discovered by restarting the whole exploration each time a new one shows
+    # up.  The final sets are a deterministic function of (function source, contract module, engine sources); they are
+    # cached under that key so that an unchanged function is explored once.  A stale or missing entry only costs the
+    # restarts again (a missing location is still detected and triggers a restart; the key excludes stale supersets).
+    _HAVOC_CACHE = os.path.join(os.path.dirname(os.path.abspath(__file__)), "havoc_cache")  # one small file per key
+
+    def _havoc_key(self, fr):
+        import hashlib
+        import inspect
+
+        h = hashlib.sha256()
+        h.update(self.contract.target.encode())
+        try:
+            h.update(ast.get_source_segment(fr.module.source, fr.node).encode())
+        except Exception:
+            h.update(ast.dump(fr.node).encode())
+        try:
+            h.update(open(inspect.getsourcefile(type(self.contract)), "rb").read())
+        except Exception:
+            return None
+        here = os.path.dirname(os.path.abspath(__file__))
+        for fn in ("engine.py", "builtins_model.py", "values.py", "reclist.py", "contract.py"):
+            h.update(open(os.path.join(here, fn), "rb").read())
+        return h.hexdigest()
+
+    def _havoc_load(self, key):
+        if key is None or os.environ.get("VERIF_NO_HAVOC_CACHE"):
+            return
+        try:
+            ent = json.load(open(os.path.join(self._HAVOC_CACHE, key[:32] + ".json")))
+        except Exception:
+            return
+        if ent.get("key") == key:
+            self.loop_havoc = {k: {(int(o), f) for o, f in v} for k, v in ent["loops"].items()}
+
+    def _havoc_store(self, key):
+        if key is None or not os.environ.get("VERIF_UPDATE_HAVOC_CACHE") or not self.stats.get("restarts"):
+            return
+        os.makedirs(self._HAVOC_CACHE, exist_ok=True)
+        ent = {"key": key, "target": self.contract.target, "loops": {k: sorted([int(o), f] for o, f in v if isinstance(f, str)) for k, v in self.loop_havoc.items()}}
+        path = os.path.join(self._HAVOC_CACHE, key[:32] + ".json")
+        tmp = path + ".%d.tmp" % os.getpid()
+        json.dump(ent, open(tmp, "w"), sort_keys=True)
+        os.replace(tmp, path)
+
     def run(self):
         """explore all paths of the FUC; returns list of obligations"""
         fr = self.registry.resolve_target(self.contract.target)
         self.target_func = fr
+        hkey = self._havoc_key(fr)
+        self._havoc_load(hkey)
+        try:
+            return self._run(fr)
+        finally:
+            try:
+                self._havoc_store(hkey)
+            except Exception:
+                pass
+
+    def _run(self, fr):
         while True:
             try:
                 self.obligations = []
